@@ -69,6 +69,7 @@ type State struct {
 	Cell  map[*ssa.Alloc]ssa.Value
 	Facts map[string]Rel
 	Trail []*ssa.BasicBlock
+	Snap  map[*ssa.Alloc]ssa.Value // cell contents just before the function's deferred calls ran
 	Outer *State // state at the closure creation site (for nested exploration), for witness only
 }
 
@@ -90,6 +91,7 @@ func (s *State) clone() *State {
 		n.Facts[k] = v
 	}
 	n.Trail = append([]*ssa.BasicBlock(nil), s.Trail...)
+	n.Snap = s.Snap
 	return n
 }
 
@@ -592,6 +594,12 @@ func (e *Explorer) Run(fn *ssa.Function, init *State) {
 					}
 				}
 			case *ssa.Call, *ssa.Go, *ssa.Defer, *ssa.RunDefers:
+				if _, ok := x.(*ssa.RunDefers); ok {
+					s.Snap = make(map[*ssa.Alloc]ssa.Value, len(s.Cell))
+					for k, v := range s.Cell {
+						s.Snap[k] = v
+					}
+				}
 				for cell := range s.Cell {
 					if e.isVolatile(cell) {
 						delete(s.Cell, cell)
@@ -674,4 +682,42 @@ func (s *State) FactList() []string {
 	}
 	sort.Strings(out)
 	return out
+}
+
+// RetVal returns the i-th result of a Return as it stood before deferred calls ran (named results of
+// functions with defers are spilled to cells; a deferred recover handler may overwrite them only on panic).
+func (s *State) RetVal(ret *ssa.Return, i int) ssa.Value {
+	if i < 0 {
+		i += len(ret.Results)
+	}
+	v := ret.Results[i]
+	if u, ok := v.(*ssa.UnOp); ok && u.Op == token.MUL {
+		if _, resolved := s.Res[u]; !resolved {
+			if cell := s.P.cellOf(s.Canon(u.X)); cell != nil && s.Snap != nil {
+				if sv, ok := s.Snap[cell]; ok {
+					return sv
+				}
+			}
+		}
+	}
+	return s.Canon(v)
+}
+
+// Executed reports whether an instruction satisfying pred was executed on this path before `at`
+// (searching the current function's trail and the creation-site paths of enclosing closures).
+func (s *State) Executed(at ssa.Instruction, pred func(ins ssa.Instruction) bool) bool {
+	for _, b := range s.Trail {
+		for _, ins := range b.Instrs {
+			if ins == at && b == s.Trail[len(s.Trail)-1] {
+				break
+			}
+			if pred(ins) {
+				return true
+			}
+		}
+	}
+	if s.Outer != nil {
+		return s.Outer.Executed(nil, pred)
+	}
+	return false
 }
